@@ -44,7 +44,7 @@ func (i *interpreter) nativeFmtArg(v value) interface{} {
 func (i *interpreter) nativeFmtVal(t types.Type, v value) interface{} {
 	switch x := v.(type) {
 	case symInt:
-		return fmtStr(symMarker + x.t.String() + symMarkerEnd)
+		return fmtStr(i.x.decMarker(x.t))
 	case symBool:
 		return fmtStr(symMarker + x.t.String() + symMarkerEnd)
 	case symFloat:
